@@ -242,8 +242,9 @@ def fields_st(draw):
 def pair_case(draw):
     tag = draw(st.binary(min_size=1, max_size=2))
     fields = draw(fields_st())
-    allowed = draw(st.sampled_from([0, 0, 1, 0x81, 0xff, 0x0f, 0x7f, 0x7e]))
-    flag = draw(st.sampled_from([0, 0, allowed, allowed & 0x01, allowed & 0x80]))
+    allowed = draw(st.one_of(st.sampled_from([0, 0, 1, 0x81, 0xff, 0x0f, 0x7f, 0x7e]), st.integers(0, 255)))
+    # any subset of the permitted bits (each sigfield is covered / excluded independently of its neighbours)
+    flag = draw(st.one_of(st.sampled_from([0, 0, allowed, allowed & 0x01, allowed & 0x80]), st.integers(0, 255).map(lambda m: allowed & m)))
     seed = seed_of(0, tag)
     pk = E.pub(seed)
     script = observed(b'\x51\x01', draw(st.sampled_from(BODIES)))
@@ -301,7 +302,8 @@ def pair_case(draw):
     elif p == 'excluded-field':
         exc = [k for k in sorted(fields) if (flag >> (int(k[-1]) - 1)) & 1]
         if exc and 'fields' in wit:
-            wit['fields'][exc[0]] = fields[exc[0]] + b'!'
+            k = exc[draw(st.integers(0, len(exc) - 1))]
+            wit['fields'][k] = fields[k] + b'!'
         case['matched'] = True          # changes to excluded fields must not change the verdict
         case['perturbation'] = 'excluded-field'
     elif p == 'non-permitted-flag':
